@@ -102,7 +102,7 @@ def table_role(repo: Repo, mod: Module, name: str) -> str:
     try:
         keys = set(fold_expr(repo, mod, ast.Name(id=name, ctx=ast.Load())))
         best = max(ROLE_KEYS, key=lambda r: (len(ROLE_KEYS[r] & keys), -len(ROLE_KEYS[r] ^ keys)))
-        if ROLE_KEYS[best] & keys:
+        if len(ROLE_KEYS[best] & keys) >= len(ROLE_KEYS[best] ^ keys) and ROLE_KEYS[best] & keys:      # mostly the reference ids, not a table that merely shares one
             role = best
     except (Undecided, TypeError, AnchorMissing):
         pass
@@ -123,12 +123,89 @@ def N(cls: str, **fields: T.Any) -> T.Tuple[T.Any, ...]:
     return ('node', cls, tuple(sorted(fields.items())))
 
 
+def table_value(repo: Repo, mod: Module, table: str, key: str) -> T.Optional[T.Any]:
+    """Term of the entry `table[key]` of a constant dict display (node classes stay names; records are NamedTuple / tuple displays)."""
+    if not mod.has_assign(table):
+        return None
+    v = mod.assign_value(table)
+    if isinstance(v, ast.Call) and len(v.args) == 1 and not v.keywords and norm(v.func) in ('dict', 'MappingProxyType', 'types.MappingProxyType'):
+        v = v.args[0]
+    if not isinstance(v, ast.Dict):
+        return None
+    hit = [val for k, val in zip(v.keys, v.values) if isinstance(k, ast.Constant) and k.value == key]
+    if len(hit) != 1 or any(k is None or not isinstance(k, ast.Constant) for k in v.keys):
+        return None
+    return entry_term(repo, mod, hit[0])
+
+def entry_term(repo: Repo, mod: Module, e: ast.AST) -> T.Optional[T.Any]:
+    if isinstance(e, ast.Constant):
+        return ('const', e.value)
+    if isinstance(e, ast.Name):
+        return ('name', e.id)
+    if isinstance(e, (ast.Tuple, ast.List)):
+        el = [entry_term(repo, mod, x) for x in e.elts]
+        return None if any(x is None for x in el) else ('tuple', tuple(el))
+    if isinstance(e, ast.Call) and isinstance(e.func, ast.Name) and mod.has_cls(e.func.id) and not is_node_class(repo, mod, e.func.id):
+        # a record class (NamedTuple / dataclass): fields in declaration order
+        fields = [st.target.id for st in mod.cls(e.func.id).body if isinstance(st, ast.AnnAssign) and isinstance(st.target, ast.Name)]
+        vals: T.Dict[str, T.Any] = {}
+        for f, x in list(zip(fields, e.args)) + [(k.arg, k.value) for k in e.keywords if k.arg]:
+            vals[f] = entry_term(repo, mod, x)
+        if len(e.args) > len(fields) or any(x is None for x in vals.values()) or any(f not in fields for f in vals):
+            return None
+        return ('record', tuple((f, vals[f]) for f in fields if f in vals))
+    return None
+
+def resolve_with(repo: Repo, mod: Module, t: T.Any, keyof: T.Callable[[T.Any], T.Optional[str]]) -> T.Any:
+    """TABLE[<accepted token>] / its unpacked item / its record field, for a token id fixed by the case split."""
+    if not isinstance(t, tuple) or not t:
+        return t
+    if t[0] == 'sub' and isinstance(t[1], tuple) and t[1][0] == 'name' and is_call(t[2], 'self.accept_any') and keyof(t[2]) is not None:
+        v = table_value(repo, mod, t[1][1], T.cast(str, keyof(t[2])))
+        return t if v is None else v
+    if t[0] == 'item' and isinstance(t[2], int):
+        base = resolve_with(repo, mod, t[1], keyof)
+        if isinstance(base, tuple) and base[0] == 'tuple' and t[2] < len(base[1]):
+            return base[1][t[2]]
+        if isinstance(base, tuple) and base[0] == 'record' and t[2] < len(base[1]):
+            return base[1][t[2]][1]
+    if t[0] == 'attr':
+        base = resolve_with(repo, mod, t[1], keyof)
+        if isinstance(base, tuple) and base[0] == 'record' and t[2] in dict(base[1]):
+            return dict(base[1])[t[2]]
+    if t[0] == 'sub' and isinstance(t[2], tuple) and t[2][0] == 'const' and isinstance(t[2][1], int):
+        base = resolve_with(repo, mod, t[1], keyof)
+        if isinstance(base, tuple) and base[0] == 'tuple' and 0 <= t[2][1] < len(base[1]):
+            return base[1][t[2][1]]
+        if isinstance(base, tuple) and base[0] == 'record' and 0 <= t[2][1] < len(base[1]):
+            return base[1][t[2][1]][1]
+    return t
+
+
+def pairing_table_keys(mod: Module, t: T.Any) -> T.Optional[T.Tuple[str, T.Tuple[str, ...]]]:
+    """(table, its token ids) when the term reads a constant pairing table with the token an accept_any call returned (through items / fields)."""
+    while isinstance(t, tuple) and t and t[0] in ('item', 'attr', 'sub'):
+        if t[0] == 'sub' and isinstance(t[1], tuple) and t[1][0] == 'name' and is_call(t[2], 'self.accept_any') and mod.has_assign(t[1][1]):
+            v = mod.assign_value(t[1][1])
+            if isinstance(v, ast.Dict) and v.keys and all(isinstance(k, ast.Constant) and isinstance(k.value, str) for k in v.keys):
+                return t[1][1], tuple(k.value for k in v.keys)      # type: ignore[union-attr]
+            return None
+        t = t[1]
+    return None
+
+
+
 class Summary:
     """tokens consumed / shape returned by one symbolic path of a parser method."""
 
-    def __init__(self, ctx: RuleCtx, mod: Module, qn: str, sp: SymPath):
+    def __init__(self, ctx: RuleCtx, mod: Module, qn: str, sp: SymPath, case: T.Optional[T.Dict[int, str]] = None):
         self.ctx, self.mod, self.qn, self.sp = ctx, mod, qn, sp
         repo = ctx.repo
+        self.repo = repo
+        # accept_any over a table that is not one of the reference operator tables (a pairing table token id -> node class / message, or a
+        # literal tuple of ids) is read as one case per token id the table declares (policy form c): `case` fixes the id of each such call
+        self.case: T.Dict[int, str] = dict(case or {})
+        self.open: T.List[T.Tuple[int, T.Tuple[str, ...]]] = []
         self.operands = [a.term for a in sp.actions if a.kind == 'call' and a.term[2].startswith('self.')
                          and a.term[2][5:] in OPERAND_METHODS and a.term[3] is None]
         self.ord = {t[1]: i + 1 for i, t in enumerate(self.operands)}
@@ -147,21 +224,60 @@ class Summary:
                     # the last accept of a path that raises/returns before testing it cannot matter
                     raise Undecided(f'{qn}: the result of {show(t)} is not tested directly on path `{sp.describe()[:120]}`')
                 if truth[t[1]]:
-                    toks.append((t[1], self._narrow(t, self._tokarg(t))))
+                    tok = self._narrow(t, self._tokarg(t))
+                    keys = self._open_keys(t, tok)
+                    if isinstance(tok, str) and t[2] == 'self.accept_any':
+                        self.case[t[1]] = tok
+                    elif keys is not None:
+                        if t[1] in self.case:
+                            tok = self.case[t[1]]
+                        else:
+                            self.open.append((t[1], keys))
+                    toks.append((t[1], tok))
             elif t[2] in ('self.expect', 'self.block_expect'):
                 toks.append((t[1], self._tokarg(t)))
         self.tok_seq = toks
         self.tokens = tuple(x for _, x in toks)
-        self.repo = repo
+
+    def _open_keys(self, call: T.Any, tok: T.Any) -> T.Optional[T.Tuple[str, ...]]:
+        """Token ids of an accept_any(<pairing table | literal tuple>) call that is not over a reference operator table; None: keep the table reading."""
+        if call[2] != 'self.accept_any' or not call[4]:
+            return None
+        a = call[4][0]
+        if isinstance(tok, tuple) and tok[0] == 'anyof':
+            if a[0] == 'name' and table_role(self.repo, self.mod, a[1]) in ROLE_KEYS:
+                return None
+            return tuple(tok[1])
+        if isinstance(tok, tuple) and tok[0] == 'any' and a[0] == 'name' and tok[1] not in ROLE_KEYS:
+            try:
+                keys = fold_expr(self.repo, self.mod, ast.Name(id=a[1], ctx=ast.Load()))
+            except (Undecided, TypeError, AnchorMissing):
+                # the entries may be records this folder does not evaluate: the keys of the display are enough
+                v = self.mod.assign_value(a[1]) if self.mod.has_assign(a[1]) else None
+                if not isinstance(v, ast.Dict) or not all(isinstance(k, ast.Constant) for k in v.keys):
+                    return None
+                keys = [k.value for k in v.keys]        # type: ignore[union-attr]
+            if isinstance(keys, (dict, set, frozenset, tuple, list)) and keys and all(isinstance(k, str) for k in keys):
+                return tuple(sorted(keys))
+        return None
+
+    def resolve(self, t: T.Any) -> T.Any:
+        """TABLE[<accepted token>] / its unpacked item / its record field, for the token id fixed by the case split."""
+        return resolve_with(self.repo, self.mod, t, lambda call: self.case.get(call[1]))
 
     def _narrow(self, call: T.Any, tok: T.Any) -> T.Any:
         """accept_any(TABLE) returns the token id: comparisons of that result with constants on the path narrow the table to the ids still possible."""
-        if call[2] != 'self.accept_any' or not (call[4] and call[4][0][0] == 'name'):
+        if call[2] != 'self.accept_any' or not call[4]:
             return tok
-        try:
-            keys = set(fold_expr(self.ctx.repo, self.mod, ast.Name(id=call[4][0][1], ctx=ast.Load())))
-        except (Undecided, TypeError):
+        if isinstance(tok, tuple) and tok[0] == 'anyof':
+            keys = set(tok[1])          # a literal tuple of token ids
+        elif call[4][0][0] != 'name':
             return tok
+        else:
+            try:
+                keys = set(fold_expr(self.ctx.repo, self.mod, ast.Name(id=call[4][0][1], ctx=ast.Load())))
+            except (Undecided, TypeError):
+                return tok
         narrowed = False
         for t, v in self.sp.conds():
             if isinstance(t, tuple) and t[0] == 'op' and t[1] in ('Eq', 'NotEq', 'In', 'NotIn') and len(t[2]) == 2 and call in t[2][:1]:
@@ -202,6 +318,8 @@ class Summary:
             return a[1]
         if a[0] == 'name' and t[2] == 'self.accept_any':
             return ('any', table_role(self.ctx.repo, self.mod, a[1]))
+        if a[0] in ('tuple', 'list', 'set') and t[2] == 'self.accept_any' and a[1] and all(x[0] == 'const' and isinstance(x[1], str) for x in a[1]):
+            return ('anyof', tuple(sorted(x[1] for x in a[1])))
         # TABLE[<token accepted before>]: a constant pairing table read with a token id that the comparisons on the path have narrowed to one key
         if a[0] == 'sub' and a[1][0] == 'name' and is_call(a[2], 'self.accept_any') and self.mod.has_assign(a[1][1]):
             key = self._narrow(a[2], None)
@@ -216,6 +334,7 @@ class Summary:
     def shape(self, t: T.Any) -> T.Any:
         if not isinstance(t, tuple):
             return ('?', repr(t))
+        t = self.resolve(t)
         k = t[0]
         if k == 'const':
             return ('const', t[1])
@@ -226,6 +345,8 @@ class Summary:
             return c if c[0] == 'const' else ('name', t[1])
         if k == 'call':
             fname, args = t[2], t[4]
+            if fname == 'self.create_node' and args:
+                args = (self.resolve(args[0]),) + tuple(args[1:])
             if fname == 'self.create_node' and args and args[0][0] == 'name' and is_node_class(self.repo, self.mod, args[0][1]):
                 return self._node(args[0][1], args[1:], t[5])
             if t[3] is None and is_node_class(self.repo, self.mod, fname):
@@ -336,15 +457,21 @@ def _summaries(ctx: RuleCtx, mod: Module, meth: str, unroll: int = 3) -> T.Tuple
     rets: T.List[Summary] = []
     raises: T.List[Summary] = []
     for sp in sym_paths(fn, unroll=unroll, helpers=parser_helpers(mod), mod=mod):
-        s = Summary(ctx, mod, f'Parser.{meth}', sp)
-        if sp.outcome == 'return':
-            rets.append(s)
-        elif sp.outcome == 'raise':
-            raises.append(s)
-        elif sp.outcome == 'fall':
-            rets.append(s)
-        else:
-            raise Undecided(f'Parser.{meth}: path ends by {sp.outcome}')
+        s0 = Summary(ctx, mod, f'Parser.{meth}', sp)
+        cases: T.List[T.Dict[int, str]] = [{}]
+        for seq, keys in s0.open:
+            cases = [{**c, seq: k} for c in cases for k in keys]
+        if len(cases) > 64:
+            raise Undecided(f'Parser.{meth}: {len(cases)} token cases on one path')
+        for s in ([s0] if not s0.open else [Summary(ctx, mod, f'Parser.{meth}', sp, c) for c in cases]):
+            if sp.outcome == 'return':
+                rets.append(s)
+            elif sp.outcome == 'raise':
+                raises.append(s)
+            elif sp.outcome == 'fall':
+                rets.append(s)
+            else:
+                raise Undecided(f'Parser.{meth}: path ends by {sp.outcome}')
     return rets, raises
 
 
